@@ -38,6 +38,12 @@ func genCase(t *rapid.T) Case {
 	st := []gen.Style{gen.Mixed, gen.SmallDom, gen.Wide}[rapid.IntRange(0, 2).Draw(t, "style")]
 	c.Plan = gen.RowsAtLeast(t, &c.Schema, 8, []int{0, 0, 50, 150}[rapid.IntRange(0, 3).Draw(t, "min")], kit.Pick(400, 3000), gen.ValueOpts{Style: st, Leaf: gen.Opts{MaxBytes: 24}})
 	c.Plan.Uniq = rapid.IntRange(0, 2).Draw(t, "uniq") != 0
+	// filters larger than the reader's 4 KiB buffer: ≥1200 values at 32 bits per value, in one row group
+	bigFilter := rapid.IntRange(0, 7).Draw(t, "bigfilter") == 3
+	if bigFilter {
+		c.Plan = gen.RowsAtLeast(t, &c.Schema, 8, 1200, 1500, gen.ValueOpts{Style: st, Leaf: gen.Opts{MaxBytes: 24}})
+		c.Plan.Uniq = true
+	}
 	bias := gen.OptsBias{SmallPages: rapid.Bool().Draw(t, "small"), NoBloom: true, EncFor: pq.ValidEncodings}
 	c.Opts = gen.WriterOptions(t, cols, bias)
 	c.Opts.Pool = ""
@@ -52,6 +58,12 @@ func genCase(t *rapid.T) Case {
 	}
 	c.Opts.DeferBloom = rapid.IntRange(0, 2).Draw(t, "defer") == 0
 	c.Ops = gen.WriteOps(t, c.Plan.NumRows())
+	if bigFilter {
+		c.Ops, c.Opts.MaxRows = nil, 0
+		for i := range c.Opts.Bloom {
+			c.Opts.Bloom[i].Bits = 32
+		}
+	}
 	c.Path = paths[rapid.IntRange(0, len(paths)-1).Draw(t, "path")]
 	c.Prefetch = rapid.IntRange(0, 3).Draw(t, "prefetch") == 0
 	c.SrcOpts = gen.WriterOptions(t, cols, bias)
